@@ -94,7 +94,7 @@ def r09_1(ctx, a):
 def r09_3(ctx, a):
     F = ctx.facts
     c = a.closure
-    b = c.built
+    b = inl(F, c, a.translator)
     applies = [(blk, t) for blk, t in b.calls(r"VectorDiff::<.*>::apply$") if mentions_field(b.expr_of_op(t["args"][1]), "buffered_vector") or True]
     tcalls = [(blk, t) for blk, t in b.calls() if F.local_callee(c, t) is a.translator]
     if not tcalls:
@@ -200,7 +200,7 @@ def r09_6(ctx, ads):
     # Skip: no translation while count is None
     a = ads["skip"]
     if a.closure is not None and a.translator is not None:
-        b = a.closure.built
+        b = inl(F, a.closure, a.translator)
         for blk, t in b.calls():
             if F.local_callee(a.closure, t) is a.translator:
                 facts = conds.bare(conds.dominating_facts(b, blk))
